@@ -21,7 +21,7 @@ from props import pipe_common
 STEP = 1400   # lcm(1400, 100): default primary / secondary resolution
 
 
-def lattice_input(rng: random.Random, inverted_repeat: bool = False, decoy: bool = False):
+def lattice_input(rng: random.Random, inverted_repeat: bool = False, decoy: bool = False, dense: bool = False):
     refs = []
     blocks = {}
     for rid in (3, 8):
@@ -103,34 +103,35 @@ def lattice_input(rng: random.Random, inverted_repeat: bool = False, decoy: bool
         qrys.append({"id": qid + 1, "len": total * 10, "x": [v * 10 for v in mir], "kind": f"lattice{style}m",
                      "ref": ref["id"], "mirrored": True})
         qid += 2
-    # a contig with ONE label-dense stretch (gaps of 1-3 seeding bins inside it, at least 5 bins everywhere else) and the
-    # molecule that is exactly that stretch, with its mirror image: the blurred seeding vector of the molecule is all ones -
-    # the same read from either end although the molecule is no palindrome - so both strands give the same seed at the
-    # same place and only the refinement tells them apart
-    def sparse(x0, k):
-        out, x = [], x0
-        for _ in range(k):
-            out.append(x)
-            x += STEP * (5 + min(int(rng.expovariate(1 / 4.5)), 30))
-        return out, x
-    head, x = sparse(STEP * rng.randint(2, 6), rng.randint(25, 45))
-    w = rng.randint(15, 22)
-    stretch = []
-    for _ in range(w):
-        stretch.append(x)
-        x += STEP * rng.choice([1, 2, 2, 3, 3])
-    tailpart, _ = sparse(stretch[-1] + STEP * rng.randint(5, 12), rng.randint(25, 45))
-    xs = head + stretch + tailpart
-    if not decoy:
-        refs.append({"id": 15, "len": (xs[-1] + STEP * rng.randint(1, 20)) * 10, "x": [v * 10 for v in xs], "bp": xs})
-    labs = [v - stretch[0] for v in stretch]
-    total = labs[-1]
-    mir = sorted(total - v for v in labs)
-    # (not next to the decoy contig: its dense loci give an all-ones vector more tied seeds than peaksCount, and which of
-    # equally scored seeds are kept is no part of C11 - assumption 2)
-    if mir != labs and not decoy:
-        qrys.append({"id": 30, "len": total * 10 + 10, "x": [v * 10 for v in labs], "kind": "dense", "ref": 15, "mirrored": False})
-        qrys.append({"id": 31, "len": total * 10 + 10, "x": [v * 10 for v in mir], "kind": "densem", "ref": 15, "mirrored": True})
+    if dense and not decoy:
+        # a contig with ONE label-dense stretch (gaps of 1-3 seeding bins inside it, at least 5 bins everywhere else) and the
+        # molecule that is exactly that stretch, with its mirror image: the blurred seeding vector of the molecule is all ones -
+        # the same read from either end although the molecule is no palindrome - so both strands give the same seed at the
+        # same place and only the refinement tells them apart
+        def sparse(x0, k):
+            out, x = [], x0
+            for _ in range(k):
+                out.append(x)
+                x += STEP * (5 + min(int(rng.expovariate(1 / 4.5)), 30))
+            return out, x
+        head, x = sparse(STEP * rng.randint(2, 6), rng.randint(25, 45))
+        w = rng.randint(15, 22)
+        stretch = []
+        for _ in range(w):
+            stretch.append(x)
+            x += STEP * rng.choice([1, 2, 2, 3, 3])
+        tailpart, _ = sparse(stretch[-1] + STEP * rng.randint(5, 12), rng.randint(25, 45))
+        xs = head + stretch + tailpart
+        if not decoy:
+            refs.append({"id": 15, "len": (xs[-1] + STEP * rng.randint(1, 20)) * 10, "x": [v * 10 for v in xs], "bp": xs})
+        labs = [v - stretch[0] for v in stretch]
+        total = labs[-1]
+        mir = sorted(total - v for v in labs)
+        # (not next to the decoy contig: its dense loci give an all-ones vector more tied seeds than peaksCount, and which of
+        # equally scored seeds are kept is no part of C11 - assumption 2)
+        if mir != labs and not decoy:
+            qrys.append({"id": 30, "len": total * 10 + 10, "x": [v * 10 for v in labs], "kind": "dense", "ref": 15, "mirrored": False})
+            qrys.append({"id": 31, "len": total * 10 + 10, "x": [v * 10 for v in mir], "kind": "densem", "ref": 15, "mirrored": True})
     if decoy:
         # a contig with two loci that resemble one molecule: T carries all its labels exactly, but with two additional
         # labels in most gaps (weak normalised seed peak, many pairs); E carries the first labels exactly and the others
@@ -173,7 +174,7 @@ def lattice_input(rng: random.Random, inverted_repeat: bool = False, decoy: bool
 def one_input(args):
     seed, idx, workroot = args
     rng = random.Random(seed * 48611 + idx)
-    inp = lattice_input(rng, inverted_repeat=(idx % 4 in (1, 3)), decoy=(idx % 4 in (0, 2)))
+    inp = lattice_input(rng, inverted_repeat=(idx % 4 in (1, 3)), decoy=(idx % 4 in (0, 2)), dense=(idx % 4 == 3))
     wd = os.path.join(workroot, f"c11-{os.getpid()}-{idx}")
     extra = [{"-d": 600}, {"-d": 600, "-p": 5}, {"-d": 300, "-ms": 2000, "-bs": 1500}, {"-d": 600, "-sj": 0.5, "-ss": 1}][idx % 4]
     try:
